@@ -1432,6 +1432,24 @@ def m_iter_closure(ex, st, fr, path, args, m):
                 break
             acc = ex.call_closure(st, fr, args[2], [acc, o.fields[0]])
         return acc
+    if op == "sum":
+        gm = re.search(r"sum::<(\w+)>$", path)
+        ty = gm.group(1) if gm else None
+        if ty not in INT_W or ty in FLOATS:
+            return NotImplemented
+        acc = I(ty, 0)
+        while True:
+            o = iter_next(ex, st, work)
+            if o.variant == "None":
+                break
+            x = o.fields[0]
+            if isinstance(x, Ref):
+                x = deref_val(x)
+            r = binop("AddWithOverflow", acc, x)
+            if ex.decide(st, r.fields[1]):
+                raise Panic("attempt to add with overflow (Iterator::sum)")
+            acc = r.fields[0]
+        return acc
     if op == "last":
         last = NONE()
         while True:
@@ -1717,6 +1735,25 @@ def m_btree_cursor(ex, st, fr, path, args, m):
 # The *iteration order* of a real HashMap is unspecified: obligations that iterate a map state the order they explored.
 #   value = Agg("struct", [VecObj([Agg tuple (key VecObj, val)])], name="HashMap")
 # ------------------------------------------------------------------------------------------------
+def M_split_last(generics):
+    """last top-level generic argument of `'_, K, V`"""
+    depth = 0
+    cur = ""
+    parts = []
+    for ch in generics:
+        if ch in "<([":
+            depth += 1
+        elif ch in ">)]":
+            depth -= 1
+        if ch == "," and depth == 0:
+            parts.append(cur.strip())
+            cur = ""
+        else:
+            cur += ch
+    parts.append(cur.strip())
+    return parts[-1]
+
+
 def hashmap_new(pairs=()):
     return Agg("struct", [VecObj([Agg("tuple", [k, v]) for k, v in pairs])], name="HashMap")
 
@@ -1740,7 +1777,14 @@ def _hashmap_ref(r):
 
 
 def _hashmap_find(ex, st, ents, key):
+    kv = key
+    while isinstance(kv, Ref) and isinstance(deref_val(kv), (I, Ref)):
+        kv = deref_val(kv)
     for k, e in enumerate(ents):
+        if isinstance(e.fields[0], I):
+            if isinstance(kv, I) and ex.decide(st, binop("Eq", e.fields[0], kv)):
+                return k
+            continue
         if bytes_cmp(ex, st, e.fields[0], key) == 0:
             return k
     return None
@@ -1800,7 +1844,13 @@ def m_hashmap_entry(ex, st, fr, path, args, m):
         elif op == "or_insert_with":
             val = ex.call_closure(st, fr, args[1], [])
         else:
-            raise Unsupported("hash_map::Entry::or_default (value type default not modelled)")
+            vt = M_split_last(m.group(1))
+            if re.match(r"^(?:std::collections::)?HashMap<", vt):
+                val = hashmap_new()
+            elif re.match(r"^(?:std::vec::)?Vec<", vt):
+                val = VecObj([], vt)
+            else:
+                raise Unsupported("hash_map::Entry::or_default for value type " + vt)
         # the closure may have forked; re-read the entries of the (possibly restored) state
         ents = hashmap_entries(r)
         ents.append(Agg("tuple", [key, val]))
